@@ -996,21 +996,28 @@ def search(ctx):
 
     modes = [("cyc", False, "cycle", graphcap.is_single_cycle), ("cyc", True, "cycle-prim", graphcap.is_single_cycle),
              ("path", True, "path-prim", graphcap.is_single_path)]
-    for (tag, n, es) in graph_scope(ctx, "search"):
-        key0 = "n%d:%s" % (n, ",".join("%d-%d" % e for e in es))
-        if enough():
-            break
-        for (kind, prim, label, oracle) in modes:
-            if label != "cycle" and tag == "rnd" and not (big or deep) and ctx.rng.random() < 0.5:
-                continue
-            r = vlib.guarded(Posted, post_graph(kind, prim, n, es))
-            if r[0] == "err":
-                ctx.violation("%s-raises:%s" % (label, key0), "%s raises %s on a well-formed graph" % (label, r[1]),
-                              {"helper": label, "n": n, "edges": [list(e) for e in es], "error": r[1]})
-                continue
-            ctx.count("search:%s:%s" % (label, tag))
-            check_patterns(ctx, label, key0, r[1], n, es, graphcap.patterns(len(es)), oracle, tag,
-                           spec_rows if label == "cycle" else None)
+    scope = graph_scope(ctx, "search")
+    # the 5-vertex exhaustive block (deep / thorough only) is the longest: it runs after the other input classes, so that a
+    # broken tie gets its concrete failing input from the cheaper, more varied classes first
+    later = [t for t in scope if t[0] == "ex5"]
+
+    def graph_block(items):
+        for (tag, n, es) in items:
+            key0 = "n%d:%s" % (n, ",".join("%d-%d" % e for e in es))
+            if enough():
+                break
+            for (kind, prim, label, oracle) in modes:
+                if label != "cycle" and tag == "rnd" and not (big or deep) and ctx.rng.random() < 0.5:
+                    continue
+                r = vlib.guarded(Posted, post_graph(kind, prim, n, es))
+                if r[0] == "err":
+                    ctx.violation("%s-raises:%s" % (label, key0), "%s raises %s on a well-formed graph" % (label, r[1]),
+                                  {"helper": label, "n": n, "edges": [list(e) for e in es], "error": r[1]})
+                    continue
+                ctx.count("search:%s:%s" % (label, tag))
+                check_patterns(ctx, label, key0, r[1], n, es, graphcap.patterns(len(es)), oracle, tag,
+                               spec_rows if label == "cycle" else None)
+    graph_block([t for t in scope if t[0] != "ex5"])
     for (tag, n, es, pats) in big_scope(ctx):
         key0 = "n%d:%s" % (n, ",".join("%d-%d" % e for e in es))
         if enough():
@@ -1047,6 +1054,7 @@ def search(ctx):
             pats = frame_patterns(ctx, n, es, 70000 if big else (10000 if deep else 5000))
             ctx.count("search:%s:frame" % label)
             check_patterns(ctx, "frame-" + label, key0, r[1], n, es, pats, oracle, "frame %dx%d" % (h, w))
+    graph_block(later)
     # the Coq specification (extracted single_cycle_b / single_path_b / visited) against the same oracles
     try:
         m = ctx.model("C06")
